@@ -1153,7 +1153,17 @@ func (s *manifestStore) deleteWithIndexing(ctx context.Context, target ocispec.D
 			return err
 		}
 		if err := s.indexReferrersForDelete(ctx, target, manifestJSON); err != nil {
-			return err
+			var re *ReferrersError
+			if !errors.As(err, &re) || !re.IsReferrersIndexDelete() {
+				return err
+			}
+			// the referrers index has been updated and only the dangling old
+			// index could not be deleted: still delete the manifest, which
+			// is not listed any more, and report the clean-up error
+			if err := s.repo.delete(ctx, target, true); err != nil {
+				return err
+			}
+			return re
 		}
 	}
 
